@@ -250,3 +250,17 @@ func contract_numValidPaths(m proto.Message, paths []string) (n int) {
 	modifiesAll()
 	return
 }
+
+// Intersect's two-pointer merge keeps a path of one list only when a path of the other list covers
+// it in the sense of the path algebra (equal, or an ancestor at a '.' boundary) - never on a plain
+// string-prefix match.
+//
+// @ props C44
+// @ mode int
+// @ nopanic
+// @ site out = append(out, s1): specPrefix(s1, s2)
+// @ site out = append(out, s2): specPrefix(s2, s1)
+func contract_Intersect(mx *FieldMask, my *FieldMask, ms ...*FieldMask) (r *FieldMask) {
+	modifiesAll()
+	return
+}
